@@ -41,12 +41,12 @@ Lemma mode_loop_inv rest : forall done mf cf cm mm mt ct,
 Proof.
   induction rest as [|p r IH]; intros done mf cf cm mm mt ct Hs Hd Hr Hcf Hmf Hmm Hle Hall.
   - cbn [mode_loop]. rewrite app_nil_r. split; [lia|]. intro w. rewrite Hmm. apply Hall.
-  - inversion Hs as [|? ? Hsr Hp]; subst. rewrite Forall_forall in Hp.
+  - apply StronglySorted_inv in Hs as [Hsr Hp]. rewrite Forall_forall in Hp.
     replace (done ++ p :: r) with ((done ++ [p]) ++ r) by (rewrite <- app_assoc; reflexivity).
     pose proof (Hr p (or_introl eq_refl)) as Hpc.
     cbn [mode_loop]. destruct (pt_v p =? cm) eqn:E; cbn [negb].
     + (* same value: the run continues *)
-      assert (Ep : pt_v p = cm) by lia.
+      assert (Ep : pt_v p = cm) by lia. subst cf.
       assert (Hd' : forall x, In x (done ++ [p]) -> pt_v x <= cm).
       { intros x Hx. apply in_app_or in Hx as [Hx | [<- | []]]; [apply Hd, Hx | lia]. }
       assert (Hr' : forall x, In x r -> cm <= pt_v x) by (intros x Hx; apply Hr; right; exact Hx).
@@ -87,7 +87,7 @@ Proof.
     - apply Permutation_nil in HP. congruence.
     - eexists _, _. split; [reflexivity|].
       assert (M : is_mode (mode_loop (h :: tl) 0 0 (pt_v h) (pt_v h) (pt_t h) (pt_t h)) (h :: tl)).
-      { inversion Hs as [|? ? Hst Hh]; subst. rewrite Forall_forall in Hh.
+      { apply StronglySorted_inv in Hs as [Hst Hh]. rewrite Forall_forall in Hh.
         cbn [mode_loop]. rewrite Z.eqb_refl. cbn [negb]. cbn.
         change (h :: tl) with ([h] ++ tl). apply mode_loop_inv; auto; try lia.
         - intros x [<- | []]. lia.
